@@ -349,10 +349,21 @@ def run_schedule(inst, schedule, p, truth, sid, *, plan=None, custom_solver=Fals
                 want, _ = truth[(o, i, j, n)]
                 vals.append(dict(ses.cell(S, (i, j, *n)), tag=tag, v=res, want=want))
                 if tag == "val" and recheck:
-                    handed.append((len(ses.events) + 1, kk + 1, v, (sizes[i], sizes[j])))
+                    # what the caller holds: the element object and, for a slice request, the returned
+                    # (masked) array itself -- its entry must keep denoting the same element
+                    holder = got if any(isinstance(o, tuple) for o in req[3]) else None
+                    handed.append((len(ses.events) + 1, kk + 1, v, (sizes[i], sizes[j]), holder, kk))
             ses.emit("ret", vals=vals, pending=ses.pending_cells())
-            for (pos, kk, obj, shape) in (handed[-recheck:] if recheck else []):
-                res, _ = hermitian.block_to_res(obj, shape, p)
+            for (pos, kk, obj, shape, holder, slot) in (handed[-recheck:] if recheck else []):
+                now = obj if holder is None else np.ma.getdata(holder).reshape(-1)[slot]
+                try:
+                    res, _ = hermitian.block_to_res(unwrap(now), shape, p)
+                    if holder is not None:
+                        res0, _ = hermitian.block_to_res(unwrap(obj), shape, p)
+                        if res0 != res:
+                            res = [[[-1, -1]]]
+                except Exception:  # noqa: BLE001   (e.g. the entry was overwritten by a number)
+                    res = [[[-1, -1]]]          # no residue is negative: TLC rejects the recheck
                 ses.emit("recheck", ref=pos, k=kk, v=res)
         ses.emit("inputs", fp=fingerprint(concrete, p))
     return finish(ses, sid, inst, fp0, p)
